@@ -248,11 +248,23 @@ func deriveInput(rc *RunCtx, x string, hot []int, allow contentFaults) (string, 
 				return h
 			}
 		}
+		if n > 40 && simrt.Choose(4) == 1 {
+			return n - 1 - simrt.Choose(32) // damage close to the end of the input
+		}
 		return simrt.Choose(n)
 	}
 	for i := 0; i < nf; i++ {
-		kind := simrt.Choose(6)
+		kind := simrt.Choose(7)
 		switch {
+		case kind == 6 && allow.reencode && len(d) > 0:
+			// a very long token: a run of one (possibly multi-byte) character inserted into the text
+			at := pick(len(d))
+			for at > 0 && !utf8.RuneStart(d[at]) {
+				at--
+			}
+			ch := []string{"a", "é", "語", "𝛑", "0", "_"}[simrt.Choose(6)]
+			d = d[:at] + strings.Repeat(ch, 8+simrt.Choose(48)) + d[at:]
+			fired = append(fired, "stretch")
 		case kind == 5 && allow.reencode:
 			// what a file picks up on its way through other tools: a byte order mark, CR LF line
 			// ends, a legacy single-byte encoding of one non-ASCII character
